@@ -162,6 +162,17 @@ def run(ctx):
     from vncdotool import command
     from unittest import mock
     import tempfile, os
+    for word_, meth in (("key", "keyPress"), ("kdown", "keyDown"), ("keydown", "keyDown"), ("kup", "keyUp"), ("keyup", "keyUp")):
+        for key_ in ("a", "ctrl-c", "enter"):
+            fac = mock.Mock()
+            command.build_command_list(fac, [word_, key_])
+            calls = [c.args for c in fac.deferred.addCallback.call_args_list]
+            want = [(getattr(command.VNCDoCLIClient, meth), key_)]
+            ctx.case(None, key=("keyword", word_, key_))
+            ctx.count("key_command_words")
+            if calls != want:
+                ctx.violate("key-command-word", {"input": {"script": [word_, key_]}, "impl": repr(calls)[:200], "spec": "VNCDoCLIClient.%s(%r)" % (meth, key_),
+                                                 "how": "build_command_list on a recording factory: which client operation the command word stands for"})
     texts = ["", "a", "Hello, World!", "a-b", "été", "tab\there", "x" * 40, "a\r\nb", "\r\n", "\n\r\n\r", "two\nlines\n", " lead and trail ", "q'\"\\#"]
     for _ in range(ctx.n(50, 500)):
         texts.append("".join(chr(ctx.rng.choice([ctx.rng.randrange(32, 127), ctx.rng.randrange(160, 0x2000), 10, 13, 9])) for _ in range(ctx.rng.randint(1, 12))))
